@@ -260,6 +260,9 @@ def bad_value(kind, n, v, r):
     t, lo, hi = n.dtype, n.minl, n.maxl
     num = t == 'R' or t[0] == 'N'
     if kind == 'too-long':
+        if not num and t == 'AN' and hi >= 3 and r.random() < .4:
+            # one character too long, with the characters that do not count towards the length of a *number*
+            return ('Z-.' * (hi + 1))[:hi] + 'Z'
         return ('9' if num else 'Z') * (hi + 1)
     if kind == 'too-short':
         return ('9' if num else 'Z') * (lo - 1)
@@ -282,7 +285,9 @@ def bad_value(kind, n, v, r):
     if kind == 'bad-date':
         return r.choice(['20040230', '20040200', '20040132', '20041301', '20040001', '20230229', '21000229', '17991231', '20040431'])
     if kind == 'bad-time':
-        return r.choice(['2460', '2400', '1260', '9999'])
+        # hour, minute or second out of range, in every spelling the element's length admits (HHMM, HHMMSS, HHMMSSd, HHMMSSdd)
+        pool = ['2460', '2400', '1260', '9999', '120060', '235999', '246000', '1200601', '2359995', '12006012', '23599999', '12600000']
+        return r.choice([v_ for v_ in pool if lo <= len(v_) <= hi] or ['2460'])
     if kind == 'required-removed':
         return ''
     if kind == 'not-used-filled':
